@@ -327,7 +327,10 @@ def gen_cli_cases(rng, n):
         elif kind == 3:                              # similar samples with non-IUPAC / IUPAC letters inside LZ-coded segments
             L = rng.choice([300, 900, 2500])
             base = bytes(rng.choice(b"ACGT") for _ in range(L))
-            r = mutate(rng, base, rng.choice([0, 0.01]), rng.choice([b"N", b"RYK", b"X", LETTERS]))
+            # the reference's largest symbol code decides its packing (ACGT=0..3 N=4 R=5 Y=6 S=7 ... U=15, other=30):
+            # alphabets ending exactly at each boundary, not only "all letters"
+            r = mutate(rng, base, rng.choice([0, 0.01, 0.03]),
+                       rng.choice([b"N", b"RYK", b"X", LETTERS, b"R", b"Y", b"RY", b"NRY", b"S", b"YS", b"U", b"BDHV"]))
             files = [ftok(b"r.fa", wrap_text(b"c1", r, rng.choice([60, 80])))]
             for j in range(rng.choice([1, 2, 3])):
                 s = mutate(rng, base, rng.choice([0.005, 0.02, 0.1]), rng.choice([b"X", b"xjo", LETTERS, IUPAC, b"ACGT"]))
